@@ -460,14 +460,21 @@ def extra_checks(tier, seed, pool):
                         for host in hosts[:2 if tier == 'quick' else 3]:
                             for tail in tails[:2 if tier == 'quick' else 4]:
                                 uri = f'{sch}://{user}:{pw}@{host}{tail}'
-                                out = hide_uri_users_and_pwds(f'source {uri}, next')
-                                n += 1
-                                ok = f':{pw}@' not in out and f'{sch}://' in out and f'@{host}{tail}' in out and ('Z' not in out)
-                                if not ok:
-                                    bad += 1
-                                    first = first or (uri, out)
+                                other = 'rtsp://uu:Zq@h2/y'
+                                plain = 'tcp://a:1/x'
+                                # positions: inside text, in comma lists with and without a space (before / after another credential URI), after a URI without credentials
+                                for ctx, keep in ((f'source {uri}, next', [f'@{host}{tail}']), (f'{uri}, {other}', [f'@{host}{tail}', '@h2/y']), (f'{other},{uri}', ['@h2/y', f'@{host}{tail}']),
+                                                  (f'{plain}, {uri}', ['tcp://a:1/x', f'@{host}{tail}'])):
+                                    if ',' in tail or ',' in host:
+                                        continue
+                                    out = hide_uri_users_and_pwds(ctx)
+                                    n += 1
+                                    ok = f':{pw}@' not in out and 'Z' not in out and f'{sch}://' in out and all(k in out for k in keep)
+                                    if not ok:
+                                        bad += 1
+                                        first = first or (ctx, out)
     res = {'bounded': [{'clause': 'C15.mask_leaf: hide_uri_users_and_pwds removes user:password and keeps scheme, host and the rest', 'kind': 'BOUNDED exhaustive enumeration (not a proof)',
-                        'bound': f'scheme x user (1..{maxu} symbols of {ualpha}) x password (1..{maxp} symbols of {palpha}) x host x tail', 'cases': n, 'failures': bad}],
+                        'bound': f'scheme x user (1..{maxu} symbols of {ualpha}) x password (1..{maxp} symbols of {palpha}) x host x tail x position (in text / comma list with and without space / after a plain URI)', 'cases': n, 'failures': bad}],
            'samples': [{'bounded_case': 'rtsp://u!:Z:/@h/x', 'masked': hide_uri_users_and_pwds('rtsp://u!:Z:/@h/x')}]}
     if bad:
         res['failures'] = [{'obligation': 'C15.mask_leaf (bounded): the masker leaves a credential readable', 'unit': 0, 'shape': 'bounded', 'model': {'uri': first[0]}, 'extra': None,
